@@ -203,6 +203,15 @@ def render(template_text, repo, ex):
             # propagation through Result<_, Error> (DESIGN §2).  It is replaced by a one-byte kind
             # carrier generated from the real enum: same constructor names and arities, payloads dropped.
             st_, ob, cb = src.braced_item('enum', a['name'])
+            if getattr(ex, 'real_error', False):
+                # fallback (engine retries with it when extracted code pattern-matches on the error in a
+                # way the carrier cannot express, e.g. `match &err { Error::StatementTimeout => ..`): the
+                # real enum, verbatim.  CBMC may or may not cope; the verdict is then undecided, never wrong.
+                text = src.text[st_:cb + 1]
+                ex.log_span('%s::enum %s (verbatim, carrier fallback)' % (a['file'], a['name']), src, st_, text)
+                ex.drop('enum %s pasted verbatim (error-carrier fallback: extracted code matches on it by pattern)' % a['name'])
+                out.append(indent + '#[derive(Debug, PartialEq, Clone)]\n' + indent + rsx.drop_attrs(text))
+                continue
             body = src.m[ob + 1:cb]
             ex.log_span('%s::enum %s (variant list only)' % (a['file'], a['name']), src, st_, src.text[st_:cb + 1])
             ex.drop('enum %s replaced by a kind-code carrier generated from its variant list (payloads dropped)' % a['name'])
